@@ -740,9 +740,7 @@ func (e *EdgeQuery) initCovering() {
 			cellLast := next.clone()
 			cellLast.Prev()
 			e.addInitialRange(cellFirst, cellLast)
-			break
 		}
-
 	}
 	e.addInitialRange(next, last)
 }
